@@ -184,14 +184,20 @@ def rawtext_rules(ctx):
     ce = ctx.ce
     f, cfg = serialize_cfg(ctx)
     model = cmm(ctx)
-    raw_set = ce.const("constants.py", "rcdataElements")
-    # which table does the serializer use?
-    uses = [n for n in cfg.nodes if n.kind == "test" and norm(n.ast) == "name in rcdataElements"]
+    # which set does the serializer consult?  `name in <constant expression>` on the start and end side
+    uses = [n for n in cfg.nodes if n.kind == "test" and isinstance(n.ast, ast.Compare) and norm(n.ast.left) == "name"
+            and isinstance(n.ast.ops[0], ast.In) and "lements" in norm(n.ast.comparators[0]) and "void" not in norm(n.ast.comparators[0])]
     if len(uses) < 2:
-        raise AnalysisError("serialize: raw-text decision `name in rcdataElements` not found")
-    imp = f.module.imports.get("rcdataElements")
-    if imp != ("html5lib.constants", "rcdataElements"):
-        raise AnalysisError("serializer.rcdataElements is not constants.rcdataElements")
+        raise AnalysisError("serialize: raw-text decision `name in <element set>` not found")
+    sets = []
+    for u in uses:
+        try:
+            sets.append(frozenset(ce.eval(u.ast.comparators[0], f.module)))
+        except Exception as e:
+            raise AnalysisError("serialize: raw-text element set `%s` is not constant (%s)" % (norm(u.ast.comparators[0]), e))
+    raw_set = sets[0]
+    r.check("S2", all(x == raw_set for x in sets), "raw-set-same-on-both-sides", "%s:%d" % (REL, uses[0].lineno),
+            "the start-tag side and the end-tag side of the raw-text decision use different element sets: %s" % [sorted(x) for x in sets])
     raw_states = {"rawtext", "scriptData"}
     for nm in sorted(raw_set):
         got = model.get(nm, set())
